@@ -5258,10 +5258,15 @@ func checkValue(
 			rootError := r
 			for {
 				switch err := r.(type) {
-				case errors.UserError, errors.ExternalError:
+				case errors.UserError:
 					valueError = err.(error)
 					return
 				case xerrors.Wrapper:
+					// NOTE: an external error is only unwrapped, not treated as a broken value:
+					// a host that wraps a user error (e.g. a checking error of the value's type)
+					// still marks the value as broken, but a genuine failure of the host
+					// (e.g. the ledger failing while the code of the value's type is loaded)
+					// says nothing about the stored value and must fail the execution.
 					r = err.Unwrap()
 				default:
 					panic(rootError)
